@@ -202,6 +202,10 @@ def imp_events(tier: str, r) -> List[Dict[str, Any]]:
         e = {'tid': f'd{d}', 'ev': 'imp', 'd': d}
         e.update(_call(f, d))
         evs.append(e)
+    for d in range(lim, -lim - 1, -7):          # again, downwards (call-order dependence)
+        e = {'tid': f'u{d}', 'ev': 'imp', 'd': d}
+        e.update(_call(f, d))
+        evs.append(e)
     # wide and huge magnitudes
     wide = [r.randrange(-2 ** 30, 2 ** 30) for _ in range(300 if tier == 'quick' else 5000)]
     wide += [s * (t + o) * 1 for t in (10 ** 4, 10 ** 5, 10 ** 6, 2 ** 30 - 1)
@@ -229,6 +233,9 @@ def imp_events(tier: str, r) -> List[Dict[str, Any]]:
                 pairs.append((s * (t + o) - a, a))
         pairs.append((t, t)); pairs.append((-t, -t)); pairs.append((t, -t))
         pairs.append((t // 2, t - t // 2)); pairs.append((-(t // 2), -(t - t // 2)))
+    for a, b in ((7600, 7600), (-7600, -7600), (-7600, -400), (7600, 400), (7600, -7600),
+                 (4000, 3999), (-3999, -4000), (7600, 0), (0, -7600), (5000, 5000)):
+        pairs.append((a, b)); pairs.append((b, a))
     for a in (0, 50, 100, 110, 420, 620, 1430, 2980, 7600, 15, 33):
         for b in (a, -a, a + 10, -a - 10, 0):
             pairs.append((a, b)); pairs.append((-a, b))
